@@ -243,6 +243,79 @@ func (a Bytes) M__ge__(other Object) (Object, error) {
 	return NotImplemented, nil
 }
 
+// The sequence protocol: a bytes object is a sequence of ints in range(0, 256)
+
+func (a Bytes) M__len__() (Object, error) {
+	return Int(len(a)), nil
+}
+
+func (a Bytes) M__bool__() (Object, error) {
+	return NewBool(len(a) > 0), nil
+}
+
+func (a Bytes) M__iter__() (Object, error) {
+	items := make(Tuple, len(a))
+	for i, c := range a {
+		items[i] = Int(c)
+	}
+	return NewIterator(items), nil
+}
+
+func (a Bytes) M__getitem__(key Object) (Object, error) {
+	if slice, ok := key.(*Slice); ok {
+		start, _, step, slicelength, err := slice.GetIndices(len(a))
+		if err != nil {
+			return nil, err
+		}
+		res := make(Bytes, slicelength)
+		for i, j := start, 0; j < slicelength; i, j = i+step, j+1 {
+			res[j] = a[i]
+		}
+		return res, nil
+	}
+	i, err := IndexIntCheck(key, len(a))
+	if err != nil {
+		return nil, err
+	}
+	return Int(a[i]), nil
+}
+
+// item in a: item is an int in range(0, 256) or a bytes-like object
+func (a Bytes) M__contains__(item Object) (Object, error) {
+	if b, ok := item.(Bytes); ok {
+		return NewBool(bytes.Contains(a, b)), nil
+	}
+	i, err := IndexInt(item)
+	if err != nil {
+		return nil, ExceptionNewf(TypeError, "a bytes-like object is required, not '%s'", item.Type().Name)
+	}
+	if i < 0 || i > 255 {
+		return nil, ExceptionNewf(ValueError, "byte must be in range(0, 256)")
+	}
+	return NewBool(bytes.IndexByte(a, byte(i)) >= 0), nil
+}
+
+func (a Bytes) M__mul__(other Object) (Object, error) {
+	if b, ok := convertToInt(other); ok {
+		if _, err := repeatLength(len(a), b); err != nil {
+			return nil, err
+		}
+		if b < 0 {
+			b = 0
+		}
+		return Bytes(bytes.Repeat(a, int(b))), nil
+	}
+	return NotImplemented, nil
+}
+
+func (a Bytes) M__rmul__(other Object) (Object, error) {
+	return a.M__mul__(other)
+}
+
+func (a Bytes) M__imul__(other Object) (Object, error) {
+	return a.M__mul__(other)
+}
+
 func (a Bytes) M__add__(other Object) (Object, error) {
 	if b, ok := convertToBytes(other); ok {
 		o := make([]byte, len(a)+len(b))
